@@ -60,7 +60,8 @@ ASSUMPTIONS = [
     'cut off from every source (heads of -1e6), a tank level that zig-zags without any status change (explicit Euler '
     'overshoot amplifies every difference), a tank on one of its limits (WNTR vs EPANET only: EPANET shuts the links and '
     'clamps, ignores a time-to-drain that rounds to 0 s), an event between hydraulic instants when report step > '
-    'hydraulic step (EPANET then steps from the event, WNTR returns to the grid), a state off EPANET\'s own PDA curve, an '
+    'hydraulic step (EPANET then steps from the event, WNTR returns to the grid), a state off EPANET\'s own PDA curve, '
+    'heads below -1e5 m in EPANET\'s run of the independent text (infeasible model), EPANET\'s own instability warnings, an '
     'open power pump without flow, link statuses that differ for a hydraulic or level-band reason',
     'a run that either engine reports as not converged / unbalanced / error 110 is inconclusive; EPANET refusing the '
     'INP file that WNTR wrote (error 200) is a violation',
@@ -79,7 +80,8 @@ TOLERANCES = {
                    '(EPANET ACCURACY bounds the last flow change, residual 2e-4 seen in PDA) + 1e-3*power-pump head gain '
                    '(gamma 9802 vs 9810 N/m3) + 1e-3*largest minor-loss head (g 32.2 ft/s2 vs 9.81 m/s2) + tank term + '
                    'sum over open pipes inside WNTR\'s low-flow band of K*q2^1.852; junction heads additionally the sum over open pipes '
-                   'of |head loss(q_E) - head loss(q_W)| (the flows are judged separately and without that term)',
+                   'and pumps of |head loss or gain(q_E) - head loss or gain(q_W)| by the spec\'s laws (the flows are judged '
+                   'separately and without that term)',
     'w_vs_e_flow': '1e-5 m3/s + 1e-3*max|q| (thresholds of wntr/tests/test_sim_performance.py) + q2 = 4e-4 m3/s for a pipe '
                    'inside WNTR\'s documented H-W smoothing band + H-W sensitivity to 2*head allowance, tightened by '
                    'continuity; PDD demand: + full demand * ((w + 0.05 m)/(Preq - Pmin))^exponent (WNTR smoothing band 0.05 m)',
@@ -716,6 +718,28 @@ def hw_k(p):
     return 10.667 * p['len'] / (p['C'] ** 1.852 * p['diam'] ** 4.871)
 
 
+def pump_gain(net, el, q):
+    """head gain of a pump of the spec at flow q > 0 by the documented curve shapes (1 point: shut-off 4/3 h, 3 points
+    with the first at q = 0: h0 - B q^C through the points, 2 points: straight line, power: P / (rho g q)); None if
+    the flow is outside what the formula covers"""
+    if q <= 1e-6:
+        return None
+    if el['type'] == 'POWER':
+        return el['power'] / (9810.0 * q)
+    pts = net['curves'][el['curve']]['pts']
+    if len(pts) == 1:
+        q1, h1 = pts[0]
+        return 4.0 / 3.0 * h1 - h1 / 3.0 * (q / q1) ** 2
+    if len(pts) == 2:
+        (q0, h0), (q1, h1) = pts
+        return h0 + (h1 - h0) * (q - q0) / (q1 - q0)
+    if len(pts) == 3 and pts[0][0] == 0:
+        (_z, h0), (q1, h1), (q2, h2) = pts
+        c_ = math.log((h0 - h1) / (h0 - h2)) / math.log(q1 / q2)
+        return h0 - (h0 - h1) / q1 ** c_ * q ** c_
+    return None
+
+
 class Allow(object):
     """Allowances of one report step for a comparison against reference table E (all derived from the spec).
 
@@ -1016,6 +1040,11 @@ def compare_w(cx, E, W, nsteps, solved_times, tank_inflow, thr_events=()):
                 qe_, qw_ = abs(E.link['flowrate'][nm][k]), abs(W.link['flowrate'][nm][k])
                 mm = 8.0 * pp['minor'] / (9.81 * math.pi ** 2 * pp['diam'] ** 4)
                 follow += abs(al.kk[nm] * (qe_ ** 1.852 - qw_ ** 1.852) + mm * (qe_ ** 2 - qw_ ** 2))
+        for name, a, b, kind, el in cx.links:       # ... and of the pumps' head gains (steep near the end of a curve)
+            if kind == 'pump' and E.link['status'][name][k] != 0:
+                ge, gw = pump_gain(net, el, E.link['flowrate'][name][k]), pump_gain(net, el, W.link['flowrate'][name][k])
+                if ge is not None and gw is not None:
+                    follow += abs(ge - gw)
         w = 5e-3 + 1e-5 * hs + 5e-4 * elem + 1e-3 * gain + 1e-3 * mloss + tank_term + sum(band.values())
         w_head = w + follow      # the flows themselves are judged with w only, so a flow error cannot excuse itself
         qbase = 1e-5 + 1e-3 * qs
@@ -1165,6 +1194,17 @@ def evaluate(case):
         n = min(n, cut)
     if n == 0:
         return inconclusive('a junction is cut off from every source at t = 0 (no defined EPANET solution)', tags), diag
+    # EPANET run on the independent text (no WNTR writer involved) reporting heads of minus 1e5 m and worse: the model
+    # asks for something infeasible (seen: an active FCV set to 0.5 L/s in front of a demand-driven dead end that draws
+    # 5 L/s: heads of -5e6 m behind it, flow through the valve 5.17 or 5.28 L/s depending on the unit system, continuity
+    # broken at the next junction); EPANET's numbers there are artefacts of its 1e8 resistance for throttled links
+    bad = [k for k in range(min(n, len(Tt.times))) if any(Tt.node['head'][j][k] < -1e5 for j in cx.junctions)]
+    if bad:
+        tags.append('cut:epanet_infeasible_heads')
+        n = min(n, bad[0])
+        if n == 0:
+            return inconclusive('EPANET itself reports heads below -1e5 m at t = 0 (infeasible model, e.g. FCV in front of '
+                                'a larger fixed demand)', tags), diag
     tu = epanet_unstable_from(['c03%s_%d.rpt' % (k_, pid) for k_ in ('E1', 'E2', 'R', 'T')])
     if tu is not None:
         keep = sum(1 for t in E1.times[:n] if t < tu)
